@@ -167,6 +167,16 @@ namespace MEDDLY {
                 }
             }
 
+            /// Done adding edges to a node built for one path:
+            /// a sparse node keeps only the z edges actually added
+            /// (none, if the path's edge was transparent).
+            inline void donePathNode(unpacked_node* n, unsigned z) const
+            {
+                if (default_is_zero) {
+                    n->shrink(z);
+                }
+            }
+
             /// Build an identity pattern.
             /// Except here we might have default values, not zeroes,
             /// off the diagonals.
@@ -917,6 +927,7 @@ void MEDDLY::fbuilder_forest::setPathToBottom(int L, const minterm &m,
             unpacked_node* n = newSetNode(k, 1);
             unsigned z=0;
             addToNode(n, z, m.from(k), cv, cp);
+            donePathNode(n, z);
 
             F->createReducedNode(n, cv, cp);
         }
@@ -954,6 +965,7 @@ void MEDDLY::fbuilder_forest::relPathToBottom(int L, const minterm &m,
                     unpacked_node* n = newPrimedNode(k, 1);
                     unsigned z=0;
                     addToNode(n, z, m.to(k), cv, cp);
+                    donePathNode(n, z);
                     F->createReducedNode(n, cv, cp);
                 }
             }
@@ -967,6 +979,7 @@ void MEDDLY::fbuilder_forest::relPathToBottom(int L, const minterm &m,
                 unpacked_node* n = newUnprimedNode(k, 1);
                 unsigned z=0;
                 addToNode(n, z, m.from(k), cv, cp);
+                donePathNode(n, z);
                 F->createReducedNode(n, cv, cp);
             }
         } // for k
@@ -1001,6 +1014,7 @@ void MEDDLY::fbuilder_forest::relPathToBottom(int L, const minterm &m,
                 unpacked_node* np = newPrimedNode(k, 1);
                 unsigned z=0;
                 addToNode(np, z, m.to(k), cv, cp);
+                donePathNode(np, z);
                 F->createReducedNode(np, cv, cp);
             }
 
@@ -1019,6 +1033,7 @@ void MEDDLY::fbuilder_forest::relPathToBottom(int L, const minterm &m,
                 addToNode(nu, z, m.from(k), cv,
                     F->redirectSingleton(m.from(k), cp)
                 );
+                donePathNode(nu, z);
 
                 F->createReducedNode(nu, cv, cp);
             }
